@@ -34,6 +34,7 @@ type Case struct {
 	PoolShim   bool     `json:"pool_shim"`
 	Nest       int      `json:"nest"`              // Transaction blocks around the operation (0..3)
 	ViaSession bool     `json:"via_session"`       // Session{Context} instead of WithContext
+	SessOpts   int      `json:"session_opts,omitempty"` // with ViaSession: 1 = also PrepareStmt, 2 = also SkipHooks, 3 = both and SkipDefaultTransaction
 	ViaConn    bool     `json:"via_connection,omitempty"` // the operation runs inside h.Connection(func(tx) …), on one dedicated connection
 	Sibling    int      `json:"sibling,omitempty"` // 1..5: other handles bound to another context are derived from the operation's handle first and abandoned
 	Warm       bool     `json:"warm"`              // run the operation once before (statements already prepared / schemas parsed)
@@ -77,6 +78,9 @@ func (Prop) Gen(r *core.Rand, tier string) interface{} {
 		c.Sibling = r.Range(1, 5)
 	}
 	c.ViaConn = r.Chance(12)
+	if c.ViaSession && r.Chance(50) {
+		c.SessOpts = r.Range(1, 3)
+	}
 	switch x := r.Intn(10); {
 	case x < 5:
 		w := ops.GenWOp(r, ops.WriteKinds)
@@ -130,6 +134,7 @@ func (Prop) Shrink(ci interface{}) []interface{} {
 		func(v *Case) bool { x := v.ViaSession; v.ViaSession = false; return x },
 		func(v *Case) bool { x := v.Sibling != 0; v.Sibling = 0; return x },
 		func(v *Case) bool { x := v.ViaConn; v.ViaConn = false; return x },
+		func(v *Case) bool { x := v.SessOpts != 0; v.SessOpts = 0; return x },
 		func(v *Case) bool { x := v.Warm; v.Warm = false; return x },
 		func(v *Case) bool { x := v.HookStmts; v.HookStmts = false; return x },
 	} {
@@ -221,7 +226,20 @@ func (p Prop) exec(c *Case, cancelAt int) (*execInfo, error) {
 		}
 		var h *gorm.DB
 		if c.ViaSession {
-			h = e.DB.Session(&gorm.Session{Context: ctx})
+			// one Session call that combines the context with other options
+			sess := &gorm.Session{Context: ctx}
+			switch c.SessOpts {
+			case 1:
+				sess.PrepareStmt = true
+			case 2:
+				sess.SkipHooks = true
+			case 3:
+				sess.PrepareStmt, sess.SkipHooks, sess.SkipDefaultTransaction = true, true, true
+			}
+			h = e.DB.Session(sess)
+			if p, ok := h.Statement.ConnPool.(*gorm.PreparedStmtDB); ok && sess.PrepareStmt && !c.Prepare {
+				defer p.Close()
+			}
 		} else {
 			h = e.DB.WithContext(ctx)
 		}
